@@ -145,9 +145,12 @@ def handle (j : Json) : R Json := do
     return jObj [("model", eToJson (fun (x : Bool) => toJson x) (collectionLt a b))]
   | "string" =>
     let a ← locOfJson (← fld j "a")
-    let s := locToString a
-    return jObj [("model", Json.str s),
-                 ("back", match locFromString s with | some l => locToJson l | none => Json.null)]
+    let op ← asStr (fldD j "op" (Json.str "join"))
+    let cs := opLocChars op.toList a
+    return jObj [("model", Json.str (String.ofList cs)),
+                 ("back", match locFromCharsOp cs with | some (_, l) => locToJson l | none => Json.null),
+                 ("back_op", match locFromCharsOp cs with
+                             | some (some o, _) => Json.str (String.ofList o) | _ => Json.null)]
   | "parse" =>
     let s ← strF j "s"
     return jObj [("model", match locFromString s with | some l => locToJson l | none => Json.null)]
